@@ -200,6 +200,12 @@ def run(ctx):
         ctx.ob('R03.3', 'Drop for the users guard performs users -= 1 exactly once', ok, ctx.where(d), '%d fetch_sub calls' % len(subs), construct='users-guard-closure')
     check_unready_drop(ctx, r, 'R03.3')
 
+    # ---- R03.9 an abandoned or panicking get() leaves all three books balanced (effect ledger) ----------------
+    from .ledger_rules import ledger_obligations
+    getters = {b.path for b in ctx.prog.bodies.values() if b.is_coroutine and b.path in set(r.GETTER) | {r.TIMEOUT_GET.path}}
+    getters |= {b.path for b in ctx.prog.bodies.values() if b.is_coroutine and b.name.endswith('Pool::get::{closure#0}')}
+    ledger_obligations(ctx, r, 'R03.9', (0, 1, 2), only=getters)
+
     ctx.not_decided += [
         '"status() again reports the earlier figures" as a numeric statement over arbitrary concurrent histories; decided is '
         'that each counter touched by the abandoned call is restored by a guard on every exit',
